@@ -436,25 +436,80 @@ theorem handleTxn_refines (b : Batch) (h : WF b.view) (cmp : List Compare) (succ
     rw [e]
   · exact ⟨ok.wf, ok.abs, ok.sys, fun _ => ok.idx rfl⟩
 
-theorem foldPuts_refines (kvs : List (Bytes × Val)) (hk : ∀ p ∈ kvs, p.1 ≠ []) :
+/-- writing an undecodable (bookkeeping) key does not change the user map -/
+theorem absMap_set_none (dec : Bytes → Option Bytes) (k : Bytes) (hk : dec k = none) (v : Val) (s : Db) :
+    SMap.absMap dec (SMap.set k v s) = SMap.absMap dec s := by
+  induction s with
+  | nil => simp [SMap.set, SMap.absMap, hk]
+  | cons hd t ih =>
+    obtain ⟨k', v'⟩ := hd
+    simp only [SMap.set]
+    split
+    · simp [SMap.absMap, hk]
+    · split
+      · have : SMap.absMap dec ((k', v') :: SMap.set k v t) =
+            ((dec k').map (fun a => (a, v'))).toList ++ SMap.absMap dec (SMap.set k v t) := by
+          simp only [SMap.absMap, List.filterMap_cons]; cases dec k' <;> rfl
+        rw [this, ih]
+        simp only [SMap.absMap, List.filterMap_cons]; cases dec k' <;> rfl
+      · rename_i h3 h4
+        have : k = k' := by
+          rcases bytesLt_tri k k' with h | h | h
+          · simp [h] at h3
+          · exact h
+          · simp [h] at h4
+        subst this
+        simp [SMap.absMap, hk]
+
+/-- a put of the empty key (no previous-pair read) writes the empty-user-key record: the user map,
+the bookkeeping records and well-formedness are unaffected -/
+theorem putEmpty_stepOK (b : Batch) (h : WF b.view) (v : Val) :
+    StepOK b { view := SMap.set (encodeUser []) v b.view, indexed := b.indexed || false } (absU b.view) := by
+  refine ⟨?_, ?_, sysOf_set_user _ h [] v, fun hi => by simp [hi]⟩
+  · refine ⟨SMap.sorted_set _ _ _ h.1, ?_⟩
+    intro p hp
+    rw [SMap.set_eq_filter _ _ _ h.1] at hp
+    simp only [List.mem_append, List.mem_filter, List.mem_cons] at hp
+    rcases hp with ⟨hp, _⟩ | rfl | ⟨hp, _⟩
+    · exact h.2 p hp
+    · exact Or.inr (Or.inr (Or.inr rfl))
+    · exact h.2 p hp
+  · exact absMap_set_none decodeUserExact (encodeUser []) dec_emptyUser v b.view
+
+theorem handlePut_noprev (b : Batch) (k : Bytes) (v : Val) :
+    handlePut b k v false = .ok ({ view := SMap.set (encodeUser k) v b.view, indexed := b.indexed || false }, none) := by
+  simp [handlePut, pure, Except.pure]
+
+theorem foldPuts_refines (kvs : List (Bytes × Val)) :
     ∀ (b : Batch), WF b.view →
     ∃ b', foldPuts b kvs = .ok (b', kvs.map (fun _ => RespOp.put none)) ∧
-      StepOK b b' (kvs.foldl (fun m p => SMap.set p.1 p.2 m) (absU b.view)) := by
+      StepOK b b' ((kvs.filter (fun p => !p.1.isEmpty)).foldl (fun m p => SMap.set p.1 p.2 m) (absU b.view)) := by
   induction kvs with
   | nil => intro b h; exact ⟨b, rfl, StepOK.refl b h⟩
   | cons p rest ih =>
     obtain ⟨k, v⟩ := p
     intro b h
-    have hk0 : k ≠ [] := hk (k, v) (by simp)
-    have s1 := put_stepOK b h k hk0 v false
-    obtain ⟨b', e, ok⟩ := ih (fun p hp => hk p (by simp [hp])) _ s1.wf
-    refine ⟨b', ?_, ?_⟩
-    · simp only [foldPuts, bind, Except.bind, pure, Except.pure]
-      rw [handlePut_eq b k hk0 v false]
-      simp only [e, Spec.put]
-      rfl
-    · have := s1.trans ok
-      simpa [Spec.put, s1.abs, List.foldl_cons] using this
+    by_cases hk0 : k = []
+    · subst hk0
+      have s1 := putEmpty_stepOK b h v
+      obtain ⟨b', e, ok⟩ := ih _ s1.wf
+      refine ⟨b', ?_, ?_⟩
+      · simp only [foldPuts, bind, Except.bind, pure, Except.pure]
+        rw [handlePut_noprev b [] v]
+        simp only [e]
+        rfl
+      · have := s1.trans ok
+        simpa [s1.abs] using this
+    · have s1 := put_stepOK b h k hk0 v false
+      obtain ⟨b', e, ok⟩ := ih _ s1.wf
+      refine ⟨b', ?_, ?_⟩
+      · simp only [foldPuts, bind, Except.bind, pure, Except.pure]
+        rw [handlePut_eq b k hk0 v false]
+        simp only [e, Spec.put]
+        rfl
+      · have := s1.trans ok
+        have hne : (k.isEmpty) = false := by cases k <;> simp_all
+        simpa [Spec.put, s1.abs, List.foldl_cons, hne] using this
 
 theorem foldDels_refines (ks : List Bytes) (hk : ∀ k ∈ ks, k ≠ []) :
     ∀ (b : Batch), WF b.view →
@@ -480,7 +535,7 @@ mutual
 def CmdWF : Cmd → Prop
   | .put k _ _ => k ≠ []
   | .del k _ _ _ => k ≠ []
-  | .putBatch kvs => ∀ p ∈ kvs, p.1 ≠ []
+  | .putBatch _ => True
   | .delBatch ks => ∀ k ∈ ks, k ≠ []
   | .txn cmp s f => (∀ c ∈ cmp, CompareWF c) ∧ (∀ o ∈ s, ReqOpWF o) ∧ (∀ o ∈ f, ReqOpWF o)
   | .seq cmds => CmdsWF cmds
@@ -507,9 +562,8 @@ theorem handle_refines : ∀ (cmd : Cmd), CmdWF cmd → ∀ (b : Batch), WF b.vi
     simp only [handle, bind, Except.bind, pure, Except.pure]
     rw [handleDelete_eq b h k hw e pk cnt]
     simp [Spec.step]
-  | .putBatch kvs, hw, b, h => by
-    simp only [CmdWF] at hw
-    obtain ⟨b', e, ok⟩ := foldPuts_refines kvs hw b h
+  | .putBatch kvs, _, b, h => by
+    obtain ⟨b', e, ok⟩ := foldPuts_refines kvs b h
     refine ⟨b', ?_, by simpa [Spec.step] using ok⟩
     simp only [handle, bind, Except.bind, pure, Except.pure, e]
     simp [Spec.step]
@@ -553,31 +607,6 @@ theorem unLe64_le64 (n : Nat) (h : n < 18446744073709551616) : unLe64 (le64 n) =
   simp only [unLe64, le64, ByteArray.get!, Array.getElem!_eq_getD, Array.getD]
   simp
   omega
-
-/-- writing an undecodable (bookkeeping) key does not change the user map -/
-theorem absMap_set_none (dec : Bytes → Option Bytes) (k : Bytes) (hk : dec k = none) (v : Val) (s : Db) :
-    SMap.absMap dec (SMap.set k v s) = SMap.absMap dec s := by
-  induction s with
-  | nil => simp [SMap.set, SMap.absMap, hk]
-  | cons hd t ih =>
-    obtain ⟨k', v'⟩ := hd
-    simp only [SMap.set]
-    split
-    · simp [SMap.absMap, hk]
-    · split
-      · have : SMap.absMap dec ((k', v') :: SMap.set k v t) =
-            ((dec k').map (fun a => (a, v'))).toList ++ SMap.absMap dec (SMap.set k v t) := by
-          simp only [SMap.absMap, List.filterMap_cons]; cases dec k' <;> rfl
-        rw [this, ih]
-        simp only [SMap.absMap, List.filterMap_cons]; cases dec k' <;> rfl
-      · rename_i h3 h4
-        have : k = k' := by
-          rcases bytesLt_tri k k' with h | h | h
-          · simp [h] at h3
-          · exact h
-          · simp [h] at h4
-        subst this
-        simp [SMap.absMap, hk]
 
 /-- the table as the properties see it: user map, applied index, leader index -/
 def absT (db : Db) : Spec.Table :=
